@@ -215,6 +215,9 @@ def run(ctx):
     r18_1_annotations_delegate(ctx)
     r18_2_comment_inert(ctx)
     r18_3_single_line_text(ctx)
+    from rules import c01 as _c01b
+
+    _c01b.r01_13_is_terminal(ctx)  # a comment op behind a terminator does not turn the block into a fall-through block
     from rules import c04 as _c04, c13 as _c13
 
     _c04.r04_7_labels(ctx)  # label spellings: sanitised name + unique index, prefixes
